@@ -286,4 +286,66 @@ theorem binding_sem (xs ys : List β) (hx : xs ≠ []) (hy : ys ≠ [])
     · exact Or.inr (Or.inr (Or.inr (Or.inr (Or.inr h1))))
     · exact Or.inr (Or.inr (Or.inr (Or.inl h1)))
 
+/-! ### a duplicated sibling pair means a duplicated leaf -/
+
+theorem not_nodup_append_self (P B R : List β) (hB : B ≠ []) : ¬ (P ++ B ++ B ++ R).Nodup := by
+  match B, hB with
+  | b :: bs, _ =>
+    intro h
+    have : (P ++ (b :: bs) ++ (b :: bs) ++ R) = P ++ (b :: (bs ++ (b :: (bs ++ R)))) := by simp
+    rw [this] at h
+    have h1 := (List.nodup_append.mp h).2.1
+    have h2 := (List.nodup_cons.mp h1).1
+    exact h2 (by simp)
+
+/-- two adjacent complete blocks of `2^l` leaves with equal roots inside `c`: some leaf of `c`
+occurs twice (or `H2` has a collision). -/
+theorem dup_of_pair (l : Nat) : ∀ (c P B S R : List β), c = P ++ B ++ S ++ R → B.length = 2 ^ l → S.length = 2 ^ l →
+    getMerkleRoot nil H2 B = getMerkleRoot nil H2 S → ¬ c.Nodup ∨ Collision H2 := by
+  induction l using Nat.strongRecOn with
+  | ind l ih =>
+    intro c P B S R hc hB hS hroot
+    have hp := Nat.two_pow_pos l
+    have hBne : B ≠ [] := by intro h; rw [h] at hB; simp at hB; omega
+    have hSne : S ≠ [] := by intro h; rw [h] at hS; simp at hS; omega
+    rw [← top_complete nil H2 l B hB, ← top_complete nil H2 l S hS] at hroot
+    have sub : ∀ z : List β, (z = B ∨ z = S) → SibDupIn nil H2 l z → ¬ c.Nodup ∨ Collision H2 := by
+      intro z hz ⟨l', P', B', S', R', hdec, hB', hS', _, hlt, hr⟩
+      rcases hz with rfl | rfl
+      · exact ih l' hlt c (P ++ P') B' S' (R' ++ S ++ R) (by rw [hc, hdec]; simp) hB' hS' hr
+      · exact ih l' hlt c (P ++ B ++ P') B' S' (R' ++ R) (by rw [hc, hdec]; simp) hB' hS' hr
+    rcases inj nil H2 l B S hBne hSne (by omega) (by omega) hroot with h | h | h | h
+    · left; rw [hc, h]; exact not_nodup_append_self P S R hSne
+    · exact sub B (Or.inl rfl) h
+    · exact sub S (Or.inr rfl) h
+    · exact Or.inr h
+
+theorem dup_of_sibDup (xs : List β) (h : SibDup nil H2 xs) : ¬ xs.Nodup ∨ Collision H2 := by
+  obtain ⟨l, P, B, S, R, hdec, hB, hS, _, hr⟩ := h
+  exact dup_of_pair nil H2 l xs P B S R hdec hB hS hr
+
+theorem delDupTx_length_le [DecidableEq β] : ∀ xs : List β, (delDupTx xs).length ≤ xs.length
+  | [] => by simp [delDupTx]
+  | x :: xs => by
+    have := delDupTx_length_le xs
+    simp only [delDupTx]; split <;> simp <;> omega
+
+theorem delDupTx_length_eq_iff [DecidableEq β] : ∀ xs : List β, (delDupTx xs).length = xs.length ↔ xs.Nodup
+  | [] => by simp [delDupTx]
+  | x :: xs => by
+    have hle := delDupTx_length_le xs
+    have ih := delDupTx_length_eq_iff xs
+    simp only [delDupTx, List.nodup_cons]
+    split
+    · next hmem => simp only [List.length_cons]; constructor
+                   · intro h; omega
+                   · intro h; exact absurd hmem h.1
+    · next hmem => simp only [List.length_cons]; constructor
+                   · intro h; exact ⟨hmem, ih.mp (by omega)⟩
+                   · intro h; rw [ih.mpr h.2]
+
+theorem dupRejected_iff [DecidableEq β] (xs : List β) : dupRejected xs = true ↔ ¬ xs.Nodup := by
+  unfold dupRejected
+  rw [← delDupTx_length_eq_iff]; simp
+
 end C18
